@@ -126,6 +126,8 @@ func maxPos(prog []*rt.Node, src string) int {
 					numberAt[p] = int(it.Pos)
 				}
 				runStart = nil
+			case parser.COMMENT, parser.SPACE:
+				// a comment ended by a bare CR sits between the sign and the number
 			default:
 				runStart = nil
 			}
@@ -278,7 +280,7 @@ func c05Tokenize(src string) []string {
 func c05Run(w *run.Worker) {
 	// (A) all byte strings up to a length bound
 	alpha := []byte("aex019\"'`\\\n #()[]{}:;,.=+-*/!<&|")
-	alpha = append(alpha, 0x80, 0xC3, 0xA9)
+	alpha = append(alpha, 0x80, 0xC3, 0xA9, '\r')
 	maxLen := 4
 	if w.Thorough {
 		maxLen = 5
@@ -361,6 +363,34 @@ func c05Run(w *run.Worker) {
 			}
 		})
 	}
+	// (E) string literals: every body over the bytes the string lexer and the
+	// unquoting step branch on, between each quote style, alone and in context
+	strSyms := []string{"a", "\n", "\r", "\\", "\"", "'", "`", "é", "\x80", "n"}
+	strMax := 4
+	if w.Thorough {
+		strMax = 5
+	}
+	quotes := [][2]string{{`"`, `"`}, {"'", "'"}, {"`", "`"}, {`"""`, `"""`}, {"'''", "'''"}}
+	var body []string
+	var srec func(n int)
+	srec = func(n int) {
+		if w.Take() {
+			b := strings.Join(body, "")
+			for _, q := range quotes {
+				c05One(w, "strings", "x = "+q[0]+b+q[1])
+				c05One(w, "strings", "f("+q[0]+b+q[1]+", 1)\ny = 2")
+			}
+		}
+		if n == strMax || w.Expired() {
+			return
+		}
+		for _, c := range strSyms {
+			body = append(body, c)
+			srec(n + 1)
+			body = body[:len(body)-1]
+		}
+	}
+	srec(0)
 	// (D) deep nesting
 	depths := []int{10, 100, 10000}
 	if w.Thorough {
@@ -410,8 +440,8 @@ func init() {
 	run.Register(&run.Check{
 		ID:    "C05",
 		Level: "model_checking",
-		Rule: "(A) every byte string of length <=4 (thorough <=5) over a 35-byte alphabet (one byte per lexer branch, incl. invalid UTF-8 bytes); (B) every sequence of <=3 (thorough <=4) tokens from a 56-token alphabet (every token kind and keyword, malformed numbers, unterminated strings, bad escapes); " +
-			"(C) 31 valid programs covering every production x every token position x {delete, duplicate, replace by each of the 56 tokens}, 1 deviation (thorough 2); (D) nesting depth 10/100/10^4 (thorough 10^5) of every bracket, unary operator, call, index, attribute, block; " +
+		Rule: "(A) every byte string of length <=4 (thorough <=5) over a 36-byte alphabet (one byte per lexer branch, incl. CR and invalid UTF-8 bytes); (B) every sequence of <=3 (thorough <=4) tokens from a 56-token alphabet (every token kind and keyword, malformed numbers, unterminated strings, bad escapes); " +
+			"(C) 31 valid programs covering every production x every token position x {delete, duplicate, replace by each of the 56 tokens}, 1 deviation (thorough 2); (E) every string body of <=4 (thorough <=5) symbols over {a LF CR backslash \" ' ` é 0x80 n} between each of the 5 quote styles, as an assignment and as a call argument followed by another line; (D) nesting depth 10/100/10^4 (thorough 10^5) of every bracket, unary operator, call, index, attribute, block; " +
 			"oracle: ParsePipeline returns a tree xor a PlError naming the script with 0 <= offset <= len and consistent line/column, never (nil,nil), never a position-less error; the exported lexer's items tile the source (gaps only blanks)",
 		Assumptions: []string{"a worker that dies or stops making progress is reported with the index of the text it was parsing"},
 		Run:            c05Run,
